@@ -143,11 +143,13 @@ theorem cl_exec (a : Api) (c : Call) (hp : P a.s) : P (a.exec c).1.s := by
   | lock v h k limit h0 => exact cl_lock hc a v h k limit h0 hp
   | poll h =>
     simp only [Api.exec]
+    split; · exact hp
     split
     · exact cl_resume hc a h _ hp
     · exact cl_acquire hc a.s h hp
   | cancel h =>
     simp only [Api.exec]
+    split; · exact hp
     split
     · exact cl_abandon hc a h _ hp
     · exact cl_cancelHandle hc a h hp
